@@ -10,7 +10,7 @@ EXPLANATION = (
     "(R-C02-collision-siblings) each of the four places that turn check_collision()'s result into an outgoing Packet::Publish performs the full effect set of the reference site "
     "(store into outgoing_pub, inflight += 1, announce Outgoing::Publish, reset collision_ping_count), and takes the collision only on a path that sends it; "
     "(R-C02-record-before-send) in outgoing_publish every path that returns Packet::Publish for QoS>0 stored a copy in outgoing_pub first, and the only path that keeps the publish without sending it stores it in `collision`; "
-    "(R-C02-clean-on-error) in EventLoop::poll the Err edge of select() passes through EventLoop::clean, which queues MqttState::clean() ahead of the drained channel; "
+    "(R-C02-clean-on-error) in EventLoop::poll the Err edge of select() passes through EventLoop::clean, every path of which moves MqttState::clean()'s packets into `pending` (their position in the queue is R-C11-first); "
     "(R-C02-release-roles) outgoing_pub / outgoing_rel are emptied only by the PUBACK/PUBREC/PUBCOMP handlers and clean(). "
     "NOT decided: loss at specific crash points of the byte stream, framed-buffer contents at failure, broker-side session semantics.")
 ASSUMPTIONS = ["rustc MIR construction is correct"]
@@ -274,13 +274,14 @@ def clean_on_error(ctx, prog, ver):
     else:
         ctx.violation(rule, poll.id, "error without clean", "poll() can return select()'s error without EventLoop::clean(): unacknowledged publishes stay in the state instead of being queued for retransmission", site=poll.fn_loc())
     c = prog.one("^" + re.escape(pre) + "clean$")
-    exts = [(bb, t) for bb, t in c.calls() if callee_path(t).endswith("Extend<T>>::extend") and [x.split(".")[-1] for x in (receiver_fields(c, t) or [])][-1:] == ["pending"]]
-    first = [bb for bb, t in exts if any(s.kind == "call" and s.path.endswith("MqttState::clean") for s in flatten_src(provenance(c, t["args"][1])))]
-    second = [bb for bb, t in exts if bb not in first]
-    if first and second and all(dominates(c, first[0], s) for s in second):
-        ctx.ok(rule, c.id, "pending.extend(state.clean()) precedes pending.extend(<requests drained from the channel>)")
+    behind, merged, stores, channel = clean_shape(prog, c)
+    # delivery only needs the packets to end up in `pending` on every path (their position is C11's rule)
+    sinks = [bb for bb, t in behind] + (stores if merged else [])
+    rets_c = return_blocks(c)
+    if sinks and not (reachable(c, (0,), avoid_blocks=sinks) & set(rets_c)):
+        ctx.ok(rule, c.id, "every path of EventLoop::clean moves MqttState::clean()'s packets into `pending`")
     else:
-        ctx.violation(rule, c.id, "retransmissions not first", "EventLoop::clean does not queue the state's unacknowledged packets ahead of the requests still in the channel", site=c.fn_loc())
+        ctx.violation(rule, c.id, "retransmissions not queued", "EventLoop::clean can return without moving the state's unacknowledged packets into `pending`", site=c.fn_loc())
 
 
 def roles(ctx, prog, ver):
